@@ -11,6 +11,8 @@ Oracle: ``expected_caps(cfg)`` — the capability table of docs/WIRE_PROTOCOL.md
 discovery" written as a pure function of the configuration; it never looks at the code under test.
 Every response must carry exactly that set (each header present iff configured, with the configured
 value, once) and ``http_capabilities()`` must read the configuration back.
+
+Storage variants include ``storage_sized``: a store whose ``len()`` is its object count (falsy when configured).
 """
 
 from __future__ import annotations
